@@ -83,6 +83,21 @@ for p in props:
     pid = p["id"]
     if pid in CHECKS:
         lvl, eng, tech, text, note = CHECKS[pid]
+        extra_text = {
+            "C01": " Added later: every operation sequence up to depth 3 (quick) / 5 (thorough) over all handle kinds is also re-executed under the Miri interpreter (use after free, double free, wrong deallocation layout, uninitialised or misaligned reads stop the run at the history in flight); every universe is also explored with three live allocations; API obligations (private pointer fields, Copy bound of the bitwise constructors) are decided by rustc.",
+            "C03": " Added later: the unwrap operations are writers of the loom sets too; UniqueArc not Clone/Copy, shared handles not DerefMut, &mut receivers: decided by rustc, with a behavioural second stage where a correct generalisation could lift the obligation.",
+            "C04": " Added later: loom sets in which several threads clone through a shared reference to one handle (final count == handles left); consuming conversions decided by rustc.",
+            "C05": " Added later: the overflow-boundary grid and a layout grid run again on a 32-bit target (i686) under the Miri interpreter.",
+            "C06": " Added later: lengths 2^k-1, 2^k, 2^k+1 up to 1025 (quick) / 4097 (thorough; 32769 for Copy slices), sized values of 4 KiB / 64 KiB / 256 KiB, every constructor also executed while the thread is unwinding from an unrelated panic; Copy bounds of the bitwise constructors decided by rustc (second stage: element-wise clones).",
+            "C07": " Added later: payload Clone impls that re-entrantly release or add co-owners, panicking destructors (also inside make_mut and inside a with_arc_mut replacement), panicking serde callbacks, iterator faults at lengths around 128 / 1024 / 4096, every constructor and the make_mut family while the thread is already unwinding.",
+            "C08": " Added later: the Miri walk over all handle kinds for a 32-bit target (i686); conservation of the old allocation under loom; Clone bounds and &mut receivers decided by rustc.",
+            "C10": " Added later: header + zero-sized-element slices with isize::MAX-1 .. usize::MAX elements converted between fat and thin.",
+            "C14": " Added later: recorded lengths at isize::MAX, 2^63 and usize::MAX.",
+            "C15": " Added later: zero-sized headers and elements that have destructors.",
+            "C16": " Added later: clone_from entry points (direct, Vec, Option); every over-limit cell also with standard error unwritable and closed.",
+            "C17": " Added later: every grid also with a (de)serializer whose is_human_readable() is false; panicking callbacks; loom exploration of deserialize_in_place against concurrent readers and releasers.",
+        }
+        text += extra_text.get(pid, "")
         if pid == "C04":
             eng += "+loomx"
             tech += "; loom exploration of threads cloning through a shared reference to one handle (final count == handles left)"
